@@ -110,7 +110,7 @@ func (c *Ctx) Reject(fs []Finding, r Rejection, replay any) {
 		}
 		return
 	}
-	dir := filepath.Join(VerifRoot, "replays")
+	dir := filepath.Join(OutRoot(), "replays")
 	os.MkdirAll(dir, 0o755)
 	path := filepath.Join(dir, fmt.Sprintf("%s-%s-s%d-%d.json", c.Prop, c.Tier, c.Seed, len(c.Violations)))
 	if len(c.Violations) < 25 {
@@ -169,8 +169,8 @@ func (c *Ctx) Finish(level, rule string, exhaustive bool, fs []Finding) int {
 	if len(c.Infra) > 0 {
 		ev["infrastructure_errors"] = c.Infra
 	}
-	os.MkdirAll(filepath.Join(VerifRoot, "evidence"), 0o755)
-	if err := WriteJSON(filepath.Join(VerifRoot, "evidence", c.Prop+".json"), ev); err != nil {
+	os.MkdirAll(filepath.Join(OutRoot(), "evidence"), 0o755)
+	if err := WriteJSON(filepath.Join(OutRoot(), "evidence", c.Prop+".json"), ev); err != nil {
 		fmt.Println("cannot write evidence:", err)
 		return 2
 	}
